@@ -125,6 +125,37 @@ CHECKS = {
         "get_all_states arrays equal the model's bit for bit, set changes exactly the in-view rows holding the key, the three routes "
         "give identical arrays (node, channel, initial-state and edge keys), write_trainables stores the simulated arrays.",
    note=TRUST + "JAX scatter semantics (out-of-bounds dropped, rows in order) restated in the model. Simulation equality follows from array equality. F2 fixed."),
+ "C08": dict(cat="proof", ref="DESIGN.md §4 C08",
+   technique="Lean 4 theorems on the time axis, record ordering, scatter_add, clamp writes and t_max padding + implementation runs against independent manual stepping",
+   text="Theorems: the returned matrix has the initial state in column 0 and the state after k steps in column k, rows in first-call order "
+        "(dedup keeps existing rows in place); sample k of an input is consumed by step k+1 only; several stimuli on one compartment "
+        "add; a clamped voltage equals its clamp sample after the step because the write follows the solve (setAt_get for distinct "
+        "indices); t_max pads stimuli with zeros / truncates; step_current has its amplitude exactly on [ws,we). On the implementation "
+        "(cells and networks with 2-3 interleaved synapse types): every row equals the independently stepped trajectory of exactly the "
+        "requested compartment/synapse, impulse timing, additivity, clamps of v / gates / synaptic states, t_max handling, short-clamp "
+        "refusal, data_stimulate/data_clamp equivalence.",
+   note=TRUST + "I nA -> I*dt of charge is C01.stim_conversion + C02.charge_balance. Fixed: F5 (synaptic state indexing), N1."),
+ "C09": dict(cat="proof", ref="DESIGN.md §4 C09",
+   technique="Lean 4 theorems on the synaptic-term model (sum over incoming edges, locality, permutation invariance, exact secant) + closed-form one-step oracle on the implementation",
+   text="Theorems over R: the terms handed to the solver for compartment c are the sums over exactly the edges with post = c (none "
+        "elsewhere), an edge reads v only at its pre and post compartment, the secant linearisation reproduces a current affine in the "
+        "post voltage exactly, any permutation of the edge list leaves every compartment's terms unchanged, vanishing currents give "
+        "vanishing terms. On the implementation: networks of point neurons with random edge multisets (autapses, fan-in, 3 interleaved "
+        "types) must match an independently computed closed-form step (state update with the PRE voltage, conversion with the POST "
+        "area, implicit treatment); creation-order invariance; locality; zero-conductance isolation on irregular cells; edge / type "
+        "views set exactly the selected synapses.",
+   note=TRUST + "Closed form compared to 1e-7. Fixed: N12 (joint perturbation of pre and post voltage), F5."),
+ "C19": dict(cat="proof", ref="DESIGN.md §4 C19",
+   technique="Lean 4: pure state machine of the editing API with invariant preserved by every operation (induction over histories) + alpha-refinement checked after every operation",
+   text="Model.Ops is a pure state machine for insert, delete_channel, set, add_to_group, record, delete_recordings, stimulate/clamp, "
+        "delete_stimuli/clamps, make_trainable, delete_trainables, connect. Theorems: the consistency invariant (column lengths, "
+        "recordings/inputs/groups/edges refer to existing rows) holds initially, is preserved by every operation and hence after "
+        "every accepted history (wf_reachable, induction over the operation list); deletions remove exactly their insertions and "
+        "leave other entries untouched. Refinement: for random histories on irregular cells and networks the abstraction "
+        "alpha(module) equals the model state after EVERY operation and rejections coincide; afterwards the invariant of the "
+        "property statement is evaluated on the real tables, integrate must run, and insert;delete must restore the tables.",
+   note=TRUST + "set_ncomp and init_states are not in the modelled alphabet (set_ncomp is C13, init_states C14). make_trainable groups are taken from "
+        "the implementation (their construction is C10). Fixed: F10/N11 (delete_channel), N10 (delete_clamps on edges)."),
 }
 
 def main():
